@@ -69,6 +69,14 @@ def render_ok(rendered, ref_options):
 
 
 def judge(case):
+    R.FORM[0] = case.get('form')
+    try:
+        return _judge(case)
+    finally:
+        R.FORM[0] = None
+
+
+def _judge(case):
     if case['kind'] == 'gen':
         return judge_gen(case)
     from dznpy.cpp_gen import Comment  # pylint: disable=import-outside-toplevel
@@ -179,7 +187,7 @@ def judge_gen(case):
     model, cfg = gen_models()[case['model']]
     cfg = dict(cfg)
     base_cfg = dict(cfg, copyright='(c) base', creator='base')
-    cfg[case['field']] = case['text']
+    cfg[case['field']] = B.StrSub(case['text']) if case.get('form') == 'subclass' else case['text']
     if case['field'] == 'copyright':
         cfg['creator'] = 'base'
     else:
@@ -220,6 +228,9 @@ def work(job):
                 continue
             for enc in ({'s': s}, ['L', {'s': 'x'}, {'s': s}, None, ['T', {'s': s}]]):
                 _one({'kind': 'cmt', 'enc': enc}, part, k % 499 == 0)
+                # REPRESENTATION: the text as instances of subclasses of str / list (Enum-like members with their own
+                # __str__)
+                _one({'kind': 'cmt', 'enc': enc, 'form': 'subclass'}, part, False)
     elif kind == 'trees':
         idx, nslots, max_nodes = job[1:]
         for k, tree in enumerate(ordered_trees(range(len(c17.LEAVES)), c17.INNER, max_nodes)):
@@ -236,6 +247,8 @@ def work(job):
                     if k % nslots != idx:
                         continue
                     _one({'kind': 'gen', 'model': mi, 'field': field, 'text': text}, part, k % 41 == 0)
+                    if text is not None and mi == 0:
+                        _one({'kind': 'gen', 'model': mi, 'field': field, 'text': text, 'form': 'subclass'}, part, False)
     return part
 
 
